@@ -11,11 +11,12 @@ import os
 from cklmon import core
 from cklmon.core import observe
 
-RULE = ("alphabet of 15 commands (define, assign, read, define+call a function reading a session variable, failing "
+RULE = ("alphabet of 18 commands (define, assign, read, define+call a function reading a session variable, failing "
         "expression, multi-statement call failing midway, syntax error, require of a good stateful module, of a missing, "
         "a broken-at-runtime, a broken-syntax and a circular module, loop aborted by an error after updating an "
-        "accumulator, require of a module whose file the host writes only later, that host action); all histories of length <= 3 (quick) / <= 4 (thorough) on one interpreter, all histories <= 2 / "
-        "<= 3 over two interleaved interpreters (30 symbols), all histories <= 2 with one caller-supplied environment passed "
+        "accumulator, require of a module whose file the host writes only later, that host action, a failing call 90 frames deep, script files run from inside a function - non-secure "
+        "sessions for those); all histories of length <= 3 (quick) / <= 4 (thorough) on one interpreter, all histories <= 2 / "
+        "<= 3 over two interleaved interpreters (36 symbols), all histories <= 2 with one caller-supplied environment passed "
         "to every call, random histories to length 30, random histories fed line by line (some commands broken over two "
         "lines) to the interactive host ckl.repl in a child process; each followed by a fixed "
         "probe sequence; a case is one history; non-trivial = it contains a failing command followed by another command; "
@@ -53,9 +54,18 @@ COMMANDS = [
     # remembered once its cause is gone
     ("req-late", "require late_mod; late_mod->v"),
     ("host-writes-late", "#host:write-late"),
+    # many frames unwound by one error: nothing counted per call may be left behind
+    ("deep-fail", "def rec(n) if n == 0 then error 'deep' else rec(n - 1); rec(90)"),
+    # script files run from inside a function (non-secure sessions only): their definitions are session definitions
+    ("run-from-fn", "def loader(f) run(f); loader('{MODDIR}/defs_file.ckl'); from_file"),
+    ("run-failing-from-fn", "def loader2(f) run(f); loader2('{MODDIR}/failing_file.ckl')"),
 ]
+RUN_FILES = {"defs_file.ckl": "def from_file = 41;\ndef from_file_fn() from_file + 1;\n",
+             "failing_file.ckl": "def early = 7;\nerror 'fromfile';\ndef late = 8;\n"}
+NEEDS_OPEN_SESSION = {"run-from-fn", "run-failing-from-fn"}
 LATE_SRC = "append(LOADLOG, 'late_mod');\ndef v = 77;\n"
-PROBES = ["x", "a1", "b1", "c1", "acc", "f(1)", "good->get()", "good->dbl(4)", "z", "never", "a", "b", "late_mod->v", "string(LOADLOG)"]
+PROBES = ["x", "a1", "b1", "c1", "acc", "f(1)", "good->get()", "good->dbl(4)", "z", "never", "a", "b", "late_mod->v", "from_file", "from_file_fn()",
+          "early", "late", "rec(0)", "string(LOADLOG)"]
 ERR = ("error", "'ERROR'")
 
 
@@ -133,6 +143,18 @@ class Model:
         if name == "host-writes-late":
             self.late_file = True
             return ("value", "host")
+        if name == "deep-fail":
+            b["rec"] = True
+            return ("error", "'deep'")
+        if name == "run-from-fn":
+            b["loader"] = True
+            b["from_file"] = 41
+            b["from_file_fn"] = True
+            return ("value", "41")
+        if name == "run-failing-from-fn":
+            b["loader2"] = True
+            b["early"] = 7
+            return ("error", "'fromfile'")
         if name == "req-late":
             if not self.late_loaded:
                 if not self.late_file:
@@ -159,18 +181,26 @@ class Model:
             return ("value", str(4 * self.factor)) if "good" in b else ERR
         if p == "late_mod->v":
             return ("value", "77") if "late_mod" in b else ERR
+        if p in ("from_file", "early"):
+            return ("value", str(b[p])) if p in b else ERR
+        if p == "from_file_fn()":
+            return ("value", "42") if "from_file_fn" in b else ERR
+        if p == "late":
+            return ERR
+        if p == "rec(0)":
+            return ("error", "'deep'") if "rec" in b else ERR
         if p == "string(LOADLOG)":
             return ("value", "'[" + ", ".join("\\'%s\\'" % m for m in self.loadlog) + "]'")
         raise ValueError(p)
 
 
 class Session:
-    def __init__(self, moddir, caller_env=False):
+    def __init__(self, moddir, caller_env=False, secure=True):
         import ckl.values as V
         import ckl.functions
         # caller_env: the host passes one environment of its own to every interpret call
         self.caller_env = ckl.functions.Environment() if caller_env else None
-        self.it, self.out = core.new_interpreter(secure=True, legacy=False)
+        self.it, self.out = core.new_interpreter(secure=secure, legacy=False)
         self.moddir = moddir
         late = os.path.join(moddir, "late_mod.ckl")
         if os.path.exists(late):
@@ -185,6 +215,7 @@ class Session:
             with open(os.path.join(self.moddir, "late_mod.ckl"), "w") as f:
                 f.write(LATE_SRC)
             return ("value", "host")
+        src = src.replace("{MODDIR}", self.moddir)
         if self.caller_env is not None:
             o = observe(lambda: self.it.interpret(src, "session", self.caller_env), 600000)
         else:
@@ -202,6 +233,9 @@ def write_modules(moddir, variant=0):
     """variant 1: same module names, different code (interpreter 1 of a pair has its own module path:
     interpreters must not see each other's modules even when the names coincide)"""
     os.makedirs(moddir, exist_ok=True)
+    for fname, text in RUN_FILES.items():
+        with open(os.path.join(moddir, fname), "w") as f:
+            f.write(text)
     for name, src in MODULES.items():
         if variant == 1:
             src = src.replace("counter += 1", "counter += 10").replace("n * 2", "n * 3")
@@ -211,13 +245,15 @@ def write_modules(moddir, variant=0):
 
 def residue_kind(name):
     return {"req-missing": "failed-require", "req-broken-rt": "failed-require", "req-broken-syn": "failed-require",
-            "req-cyclic": "circular-require", "req-late": "failed-require", "midway": "partial-call", "loop-abort": "partial-call", "fail": "failed-expression",
+            "req-cyclic": "circular-require", "req-late": "failed-require", "deep-fail": "failed-expression",
+            "run-failing-from-fn": "partial-call", "midway": "partial-call", "loop-abort": "partial-call", "fail": "failed-expression",
             "syntax": "syntax-error"}.get(name, "none")
 
 
 def run_history(ctx, moddir, hist, two=False, caller_env=False):
     """hist: list of (interpreter index, command index)"""
-    sessions = [Session(moddir if i == 0 else moddir + "_b", caller_env) for i in range(2 if two else 1)]
+    open_session = any(COMMANDS[c][0] in NEEDS_OPEN_SESSION for s_, c in hist)
+    sessions = [Session(moddir if i == 0 else moddir + "_b", caller_env, secure=not open_session) for i in range(2 if two else 1)]
     models = [Model(variant=i) for i in range(len(sessions))]
     prev_fail = "none"
     ctx.count("histories")
